@@ -292,9 +292,18 @@ def task_read_file(pr, repo):
             params = record('P', None)
             from pyvc.core import Builtin
             params.attrs['parse_line'] = Builtin('parse_line', lambda ex_, line: got.append(line))
+            # the tables the lines fill (here: a pair whose two numbers come in descending order, as a hand-edited file may have them)
+            pm = ex.instantiate(repo.cls(PM), ['sidechain_cutoffs'], {})
+            ex.call_function(repo.func(PM + '.add'), [('AAA', 'BBB', '4.5', '3.5')], self_obj=pm)
+            params.attrs['sidechain_cutoffs'] = pm
             r = ex.call_function(fi, ['my.cfg', params])
             ctx.oblige('RF[%s]: every line reaches parse_line exactly once, unchanged and in file order; the same Parameters object is '
                        'returned' % what, got == list(lines) and r is params)
+            gv = repo.func(PM + '.get_value')
+            v1 = ex.call_function(gv, ['AAA', 'BBB'], self_obj=pm)
+            v2 = ex.call_function(gv, ['BBB', 'AAA'], self_obj=pm)
+            ctx.oblige('RF[%s]: reading a file leaves every pair table symmetric (nothing rewrites one orientation of a pair after the '
+                       'lines have been parsed)' % what, tuple(v1) == tuple(v2))
         pr.explore(ex, thunk, 'read_parameter_file ' + what)
 
 
